@@ -58,7 +58,7 @@ def style_suite(ctx):
 def rename_oracle(ctx):
     s = Suite("rename-behaviour", kind="oracle")
     base = sweep.baseline("C02")
-    items = sweep.pick(sweep.generated_corpus2(), ctx, 90) + sweep.generated_corpus3() + sweep.pick(sweep.generated_corpus(), ctx, 40)
+    items = sweep.targeted() + sweep.pick(sweep.generated_corpus(), ctx, 40)
     results = oracles.pmap(sweep.task_rules, [(src, RENAMING_RULES, False) for (_sha, src, _fam) in items])
     for (sha, src, fam), res in zip(items, results):
         s.cases += 1
@@ -74,7 +74,7 @@ def rename_oracle(ctx):
             if (after[0], after[1]) != (b[0], b[1]):
                 s.disagreements.append({"sha": sha, "src": src, "rule": rule, "out": new, "family": fam,
                                         "what": f"{rule} changes behaviour ({'ends with ' + after[0] if after[0] != b[0] else 'stdout differs'}) on a {fam} program"})
-    s.note = "the 7 renaming / name-generating rules applied in isolation to the second-wave corpus (shadowing locals, kw-only parameters, global/nonlocal, duplicate functions, overused constants, case variants) and a slice of the first; executed before and after"
+    s.note = "the 7 renaming / name-generating rules applied in isolation to the whole targeted corpus (static methods calling each other through the class, locals clashing with globals due for renaming, shadowed definitions, shadowing locals, kw-only parameters, global/nonlocal, duplicate functions, overused constants, case variants) and a slice of the first; executed before and after"
     return s
 
 
